@@ -229,12 +229,15 @@ fn replay_consts(_v: &Value) -> Result<(), String> {
     Ok(())
 }
 
+crate::long_sub!(run_long_history, [5, 6]);
+
 pub fn def() -> PropDef {
     PropDef {
         id: "C15",
         rule: "t in Fq (G1) / Fq2 (G2) from the field-element generator (boundary + uniform, zero components, purely real / imaginary), 0, +-1, the SSWU-exceptional roots +-sqrt(-1/11) (Fq), each also negated; every case is classified by the model into its branch cell: (g(x1) square?) x (which of the four root-of-unity / eta multipliers the textbook candidate root needs, defined as N/(c^2 D) without any crate constant) x sgn0(t) - 16 cells for G2, 4 for G1 plus the exceptional class. Oracle: RFC 9380 6.6.2 straight-line map in the model (x = first candidate with square right-hand side, sgn0(y) = sgn0(t), exceptional x = B'/(Z A')), output compared as an affine point of E'; Z != 0; no panic; addition chains vs model powers. Non-trivial = t not in {0, +-1}; distinct = distinct cases",
         needs_pairing: false,
         subs: vec![
+            Box::new(crate::engine::EnumSub { name: "long-history", rule: super::longhist::RULE, run: run_long_history, replay: super::longhist::replay, exhaustive: false }),
             Box::new(Sub { name: "g1-sswu", rule: "G1 osswu_map vs RFC map_to_curve_simple_swu (Z = 11)", quick: 18_000, thorough: 100_000, strategy: || boxed(swu_case_strategy(0)), check: check_swu }),
             Box::new(Sub { name: "g2-sswu", rule: "G2 osswu_map vs RFC map_to_curve_simple_swu (Z = -(2+I)), 16 branch cells measured", quick: 9_000, thorough: 50_000, strategy: || boxed(swu_case_strategy(1)), check: check_swu }),
             Box::new(Sub { name: "related-sequences", rule: "2..5 calls back to back on t, -t, another t', the other group: each compared with the model", quick: 1_500, thorough: 40_000, strategy: || boxed(swu_seq_strategy()), check: check_swu_seq }),
